@@ -526,7 +526,7 @@ PROPS = {
         "explanation": "the NSEC chain: dnssec::sign::denial::nsec::generate_nsecs (real text, both loops with invariants, no bound on the "
                        "zone) returns, for the sorted owner names it is given, exactly one NSEC per name that is in the zone and not below a "
                        "delegation point (delegation points included; the scan over the sorted names that skips everything under the last "
-                       "delegation point and stops at the first name outside the zone is written as the spec function `scan`), in the order of "
+                       "delegation point and ignores names outside the zone is written as the spec function `scan`), in the order of "
                        "the input, each pointing to the owner of the next one and the last one to the apex, with a type bitmap of exactly "
                        "RRSIG, NSEC, the types present at the name (only NS and DS at a delegation point) and DNSKEY at the apex when the "
                        "configuration says so, class of the SOA and TTL = min(SOA MINIMUM, SOA TTL) (RFC 9077); its four unwrap() calls are "
@@ -540,7 +540,7 @@ PROPS = {
         "assumptions": [
             "RecordsIter yields the owner groups of the sorted zone in order, skip_before drops the names before the first one at or below the apex; "
             "OwnerRrs::{owner, is_in_zone, is_zone_cut, rrsets} and Rrset::{rtype, class, len, first} answer as their text says (is_zone_cut: not the apex and an NS RRset)",
-            "the zone has its only SOA RRset at the first name of the zone (precondition of the contract)",
+            "the zone has its only SOA RRset at the first name of the zone; the names of the zone are contiguous in the sorted input (preconditions of the contract; the second is a property of the canonical order, C04)",
             "RtypeBitmapBuilder::add inserts the type and does not fail on an unbounded octets builder; finalize keeps the set (encoding: C05)",
             "ToName::ends_with and == on names compare label-wise ignoring ASCII case (C04)",
         ],
